@@ -488,7 +488,7 @@ def random_history(rng, ver, style, mx, nops):
                     ops.append("OUT PUB %d %d %d %d" % (park[1], park[0], park[2] % 50, park[2]))
                     tr.publish(park[1], park[2], park[0])
         else:
-            ops.append(rng.choice(["OUT DISCONNECT", "IN CONNACK 0 0", "OUT PINGREQ", "IN PUBACK %d" % (mx + 1)]))
+            ops.append(rng.choice(["OUT DISCONNECT", "IN CONNACK 0 0", "OUT PINGREQ", "IN PUBACK %d" % min(mx + 1, 65535)]))
     return ops
 
 
